@@ -57,6 +57,31 @@ static void op_sh_p128(Ctx *c) { dgi(c, skinny128_parallel_ecb_encrypt(c->out, c
 static void op_sh_p64(Ctx *c) { dgi(c, skinny64_parallel_ecb_encrypt(c->out, c->in, 8 * 11, &shared.p64)); dgi(c, skinny64_parallel_ecb_decrypt(c->out + 88, c->in, 8 * 9, &shared.p64)); dg(c, c->out, 160); }
 static void op_sh_pm(Ctx *c) { dgi(c, mantis_parallel_ecb_crypt(c->out, c->in, c->tw, 8 * 11, &shared.pm)); dg(c, c->out, 88); }
 
+/* distinct objects, adjacent outputs: thread t writes slice t of one array, the slices abut byte-exactly at odd
+ * offsets (records of one message encrypted by several workers); nothing outside the slice may be read-modified-written */
+static uint8_t adj[6][MAXT * 96 + 32] __attribute__((aligned(32)));
+static void op_adj_ctr(Ctx *c)
+{
+    int t = (int)(c - ctxs); uint8_t *o;
+    o = adj[0] + t * 37; dgi(c, skinny128_ctr_init(&c->c128)); dgi(c, skinny128_ctr_set_key(&c->c128, c->key, 16)); dgi(c, skinny128_ctr_set_counter(&c->c128, c->counter, 16));
+    dgi(c, skinny128_ctr_encrypt(o, c->in, 37, &c->c128)); skinny128_ctr_cleanup(&c->c128); dg(c, o, 37);
+    o = adj[1] + t * 21; dgi(c, skinny64_ctr_init(&c->c64)); dgi(c, skinny64_ctr_set_key(&c->c64, c->key, 16)); dgi(c, skinny64_ctr_encrypt(o, c->in, 13, &c->c64));
+    dgi(c, skinny64_ctr_encrypt(o + 13, c->in + 13, 8, &c->c64)); skinny64_ctr_cleanup(&c->c64); dg(c, o, 21);
+    o = adj[2] + t * 27; dgi(c, mantis_ctr_init(&c->cm)); dgi(c, mantis_ctr_set_key(&c->cm, c->key, 16, 5)); dgi(c, mantis_ctr_encrypt(o, c->in, 27, &c->cm)); mantis_ctr_cleanup(&c->cm); dg(c, o, 27);
+}
+static void op_adj_par(Ctx *c)
+{
+    int t = (int)(c - ctxs); uint8_t *o;
+    o = adj[3] + t * 80; dgi(c, skinny128_parallel_ecb_init(&c->p128)); dgi(c, skinny128_parallel_ecb_set_key(&c->p128, c->key, 16));
+    dgi(c, skinny128_parallel_ecb_encrypt(o, c->in, 80, &c->p128)); skinny128_parallel_ecb_cleanup(&c->p128); dg(c, o, 80);
+    o = adj[4] + t * 72; dgi(c, skinny64_parallel_ecb_init(&c->p64)); dgi(c, skinny64_parallel_ecb_set_key(&c->p64, c->key, 16));
+    dgi(c, skinny64_parallel_ecb_decrypt(o, c->in, 72, &c->p64)); skinny64_parallel_ecb_cleanup(&c->p64); dg(c, o, 72);
+    o = adj[5] + t * 72; dgi(c, mantis_parallel_ecb_init(&c->pm)); dgi(c, mantis_parallel_ecb_set_key(&c->pm, c->key, 16, 5, MANTIS_ENCRYPT));
+    dgi(c, mantis_parallel_ecb_crypt(o, c->in, c->tw, 72, &c->pm)); mantis_parallel_ecb_cleanup(&c->pm); dg(c, o, 72);
+    /* the single-block functions on neighbouring blocks of one array */
+    skinny64_set_key(&c->k64, c->key, 8); skinny64_ecb_encrypt(adj[4] + MAXT * 72 + t * 8, c->in, &c->k64); dg(c, adj[4] + MAXT * 72 + t * 8, 8);
+}
+
 extern int ctl_counter; int ctl_rmw(void);
 static void op_control(Ctx *c) { dgi(c, ctl_rmw()); dgi(c, ctl_rmw()); }
 
@@ -68,6 +93,7 @@ static const OpDef OPS[] = {
     {"all six init functions", op_inits, 0},
     {"shared skinny128 schedules (read only)", op_sh_s128, 1}, {"shared skinny64 schedule (read only)", op_sh_s64, 1}, {"shared mantis schedule (read only)", op_sh_mantis, 1},
     {"shared skinny128 parallel object (read only)", op_sh_p128, 1}, {"shared skinny64 parallel object (read only)", op_sh_p64, 1}, {"shared mantis parallel object (read only)", op_sh_pm, 1},
+    {"CTR streams of distinct objects into adjacent slices of one array", op_adj_ctr, 0}, {"parallel ECB of distinct objects into adjacent slices of one array", op_adj_par, 0},
     {"CONTROL unsynchronised read-modify-write (harness-owned)", op_control, 0},
 };
 #define NOPS ((int)(sizeof(OPS) / sizeof(OPS[0])) - 1)
@@ -79,6 +105,7 @@ static void ctx_prepare(int t)
 {
     Ctx *c = &ctxs[t];
     memset(c, 0, sizeof(*c));
+    if (t == 0) memset(adj, 0, sizeof(adj));
     lcg_fill(c->key, 48, 10 + (uint32_t)t); lcg_fill(c->tweak, 16, 20 + (uint32_t)t); lcg_fill(c->counter, 16, 30 + (uint32_t)t);
     memset(c->counter, 0xFF, 12);
     lcg_fill(c->in, sizeof(c->in), 40 + (uint32_t)t); lcg_fill(c->tw, sizeof(c->tw), 50 + (uint32_t)t);
